@@ -39,3 +39,10 @@ package pages
 //@ func (*Page) Width results (w, err)
 //@   property C02
 //@   flags pure
+
+// ---- C10/C04: a failed walk keeps no partial page list, so repeating the call repeats the failure (what a lookup
+// returns does not depend on the lookups before it) ----
+//@ func (*PageTree) loadPages results (err)
+//@   property C10, C02
+//@   flags nosafety
+//@   ensures failed_walk_keeps_no_pages: err ==> len(t.pages) == 0
